@@ -251,6 +251,7 @@ RULES = [
     ("R-C18-owner", 4, "no library code outside make_dll removes or replaces a published cache path", _x3.rule_c18_owner),
     ("R-C18-key", 8, "the cache name two processes agree on is a CRC of the whole source text (C17's key rule): different sources never share a published name by construction of a weaker tag", _key),
     ("R-C18-symbols", 3, "the entry points the loaders look up are the ones the generator defines", _x3.rule_c18_symbols),
+    ("R-C18-restore", 10, "a model unpickled in a worker process carries everything it was built with (dll, OpenCL, CUDA model classes)", _x3.rule_c18_restore),
     ("R-C18-lock", 1, "the SasView wrapper's lazy build happens under calculation_lock", _x3.rule_c18_lock),
     ("R-C18-load", 4, "loader opens only the published path", rule_load),
 ]
